@@ -63,6 +63,12 @@ def build(i, d, caps):
     if k == "foreign":
         n = d.get("len", 50)
         data = pattern(max(n, 1), d.get("seed", 0))[:n]
+        if d.get("model") is not None and n >= 76:
+            # junk of a genuine length that even names a known model - only the magic is missing
+            b = bytearray(data)
+            b[74:76] = bytes.fromhex(FAMILIES[d["model"] % len(FAMILIES)])
+            b[0:2] = [b"\x00\x00", b"\xf0\xfe", b"\xfe\xf1", b"\xfe\x00"][d.get("seed", 0) % 4]
+            data = bytes(b)
         if refb.gate(data):
             data = b"\x00" + data[1:]
         return data, "ignored", None
@@ -315,6 +321,8 @@ def dgram(nports):
         st.builds(lambda p, f, s: {"kind": "valid", "port": p, "family": f, "seed": s}, port, fam, seed),
         st.builds(lambda p, n, s: {"kind": "foreign", "port": p, "len": n, "seed": s}, port,
                   st.one_of(st.integers(0, 400), st.sampled_from([0, 1, 159, 165, 168])), seed),
+        st.builds(lambda p, n, s, m: {"kind": "foreign", "port": p, "len": n, "seed": s, "model": m}, port,
+                  st.sampled_from([159, 165, 168, 168, 159, 162, 170]), seed, fam),
         st.builds(lambda p, f, c: {"kind": "truncated", "port": p, "family": f, "cut": c}, port, fam, st.integers(0, 39)),
         st.builds(lambda p, f, c: {"kind": "extended", "port": p, "family": f, "cut": c}, port, fam, st.integers(0, 4)),
         st.builds(lambda p, f, b, s: {"kind": "flipped", "port": p, "family": f, "bit": b, "seed": s}, port, fam, st.integers(0, 1343), seed),
